@@ -39,7 +39,7 @@ Definition stack2 : list tag :=
 
 Example ex_cstate_armed :
   cstate (fired stack2 0) /\ md (fired stack2 0) = Run /\ armed_run stack2 = true /\
-  cost_run stack2 = 5 /\ protected_depth stack2 = 3 /\ depth stack2 = 7 /\ weight stack2 = 4 /\
+  no_block stack2 = true /\ cost_run stack2 = 5 /\ protected_depth stack2 = 3 /\ depth stack2 = 7 /\ weight stack2 = 4 /\
   exists tr σ', run (fired stack2 0) tr σ' /\ final σ' /\ attempts tr = 5 /\ md σ' = Raising ECtx.
 Proof.
   split; [apply cstate_fired; reflexivity|]. repeat (split; [reflexivity|]).
@@ -102,7 +102,7 @@ Proof. simpl. repeat split; auto. Qed.
 Example ex_blocked :
   let s := [TGoBlock true; TLua true; TGoPcall; TLua true; TCo false true; TLua true] in
   cstate (fired s 0) /\ md (fired s 0) = Run /\
-  exists tr σ', run (fired s 0) tr σ' /\ final σ' /\ md σ' = Raising ECtx /\ attempts tr = 3.
+  exists tr σ', run (fired s 0) tr σ' /\ final σ' /\ md σ' = Raising ECtx /\ attempts tr = 2 /\ armed_run s = true.
 Proof.
   intros s. split; [apply cstate_fired; reflexivity|]. split; [reflexivity|].
   destruct (run_of_exec s 0 []) as [[tr σ'] e] eqn:E.
